@@ -2,6 +2,8 @@
 
 package otto
 
+import "math"
+
 func verifCountFrames(stack string) int {
 	n := 0
 	for i := 0; i+8 <= len(stack); i++ {
@@ -54,7 +56,7 @@ func VerifH_C19_error_classes() {
 		return "var cls = 'none'; try { " + body + " } catch (e) { cls = e instanceof TypeError ? 'TypeError' : e instanceof RangeError ? 'RangeError' : e instanceof ReferenceError ? 'ReferenceError' : e instanceof SyntaxError ? 'SyntaxError' : e instanceof URIError ? 'URIError' : 'other'; nm = e.name; msg = typeof e.message == 'string' ? e.message : ''; proto = Object.getPrototypeOf(e) === this[cls].prototype } cls"
 	}
 	var script, want string
-	switch verifChoose(11) {
+	switch verifChoose(12) {
 	case 10: // RegExp flags: SyntaxError iff a character other than g, i, m occurs, or one occurs twice
 		n := verifChoose(3)
 		f := verifNondetString(n)
@@ -118,6 +120,11 @@ func VerifH_C19_error_classes() {
 		script, want = "thisNameIsNotDefined", "ReferenceError"
 	case 6:
 		script, want = []string{"eval('var = 1')", "Function('var = 1')", "new Function('a', 'return +')", "new RegExp('(')"}[verifChoose(4)], "SyntaxError"
+	case 11: // toISOString of an invalid date (15.9.5.43)
+		t := verifNondetFloat64()
+		verifAssume(t != t || math.Abs(t) > 8.64e15)
+		vm.Set("x", t)
+		script, want = "new Date(x).toISOString()", "RangeError"
 	case 8: // unresolvable reference in every position it can be read
 		script, want = []string{"notDefined()", "new notDefined()", "notDefined.p", "1 + notDefined", "notDefined++", "typeof notDefined.p"}[verifChoose(6)], "ReferenceError"
 	case 9: // radix / fraction digits out of range
